@@ -273,6 +273,7 @@ func (w *world) callback(state string, c *issuedCode, o tokOpts, rt string, rs r
 			T.oracle("C03", "login completed although "+why, M{"note": rs.note}, w.replay())
 		}
 		w.loggedIn[w.b], w.tampered[w.b], w.loginTok[w.b], w.loginAt[w.b] = true, false, tok, time.Now().Unix()
+		w.admitted[w.b] = tok.id
 		w.rtOf[w.b] = rt
 	} else {
 		nowAuth, _ := obs["jar"].(M)["auth"].(bool)
@@ -388,7 +389,7 @@ func (w *world) plain(rawURI string, rs reqSpec, rng *mrand.Rand) M {
 				M{"class": obs["class"], "calls": calls, "token": tok.id, "jti": tok.jti != "", "secondsToExpiry": tok.exp - now, "instance": w.cur, "note": rs.note}, w.replay())
 		}
 	}
-	if own && fresh && !special && tok.exp-now > int64(w.grace) && !w.refDomainOK(tok.email) && (len(w.roles) == 0 || w.refRolesOK(tok)) && obs["class"] == "status" && obs["code"] == 403 {
+	if own && fresh && !special && w.admitted[b] == tok.id && tok.exp-now > int64(w.grace) && !w.refDomainOK(tok.email) && (len(w.roles) == 0 || w.refRolesOK(tok)) && obs["class"] == "status" && obs["code"] == 403 {
 		// the callback admitted this identity (the login completed, cookies and all), and the very session it established is
 		// turned away: whichever of the two is right, an established session does not continue to work
 		T.oracle("C04", "a session established by a completed login is refused on later requests (the e-mail gate at login and the one on each request disagree)",
@@ -541,6 +542,7 @@ func (w *world) judgeRefresh(rs reqSpec, obs M, calls []string, old *hTok, rng *
 			T.oracle("C06", "request forwarded after refresh although the new token fails the domain or role gate", M{"email": nt.email}, w.replay())
 		}
 		w.loginTok[b], w.rtOf[b], w.loginAt[b] = nt, wantRT, now
+		w.admitted[b] = "" // (the identity now in the session came from a refresh answer, not through the login gate)
 	} else {
 		T.stat("handler.refresh.fail")
 		if obs["class"] == "forward" {
@@ -949,6 +951,9 @@ func familyHandler(t *testing.T) {
 	}
 	synctest.Test(t, func(t *testing.T) {
 		defer guard()
+		if prop == "C01" || prop == "C15" {
+			configGate()
+		}
 		if rp := loadReplay(); rp != nil {
 			// a replay re-runs the scenario of the recorded seed
 			if s, ok := rp["seed"].(float64); ok {
